@@ -498,6 +498,8 @@ class IH5Record(IH5Group):
             ret = self._open(paths, reopen_incomplete_patch=want_rw, **kwargs)
             self.__dict__.update(ret.__dict__)
             self._allow_patching = want_rw
+            # nodes handed out refer to `ret` (node.file), it must have the same mode
+            ret._allow_patching = want_rw
 
             if want_rw and not self._has_writable:
                 # latest patch was completed correctly -> make writable by creating new patch
